@@ -129,7 +129,31 @@ def localUtil (usage mx : Int) : α := div (ofInt usage) (ofInt mx)
 /-- one step of the swap-out moving average of `Oomd::updateContext` -/
 def ewmaStep (factor prev x : α) : α := add x (mul factor (sub prev x))
 
+/-- `getIoCostRate`: 0 without an archived value -/
+def ioRateOf (c : α) (a : Option α) : α :=
+  match a with
+  | none => zero
+  | some x => sub c x
+
 end Formulas
+
+/-- `getPgScanCumulative`: a `memory.stat` without `pgscan` makes the statistic unavailable (fix 8db4465) -/
+def pgscanOf (m : List (Str × Int)) : Res Int :=
+  match kvLookup m (s "pgscan") with
+  | some x => .ok x
+  | none => .unavailable
+
+/-- `anon_usage` & co: a missing key is an error -/
+def statOf (m : List (Str × Int)) (key : String) : Res Int :=
+  match kvLookup m (s key) with
+  | some x => .ok x
+  | none => .unavailable
+
+/-- `getPgScanRate`: absent without an archived value -/
+def pgRateOf (c : Int) (a : Option Int) : Res Int :=
+  match a with
+  | none => .unavailable
+  | some x => .ok (c - x)
 
 /-! ## cached fields and values -/
 
@@ -439,14 +463,10 @@ def getIoCostCum (w : World) (p : RPath) : Act α (Val α) :=
   memo p .ioCostCum ((getPrim w p .ioStat).bind fun v => (Act.pure v.io?).bind fun stats =>
     Act.pure (.ok (.num (ioCost cfg stats))))
 
-def pgscanKey := s "pgscan"
-
-/-- `pg_scan_cumulative` = `PROXY(getPgScanCumulative)`; a `memory.stat` without `pgscan` throws -/
+/-- `pg_scan_cumulative` = `PROXY(getPgScanCumulative)` -/
 def getPgScanCum (w : World) (p : RPath) : Act α (Val α) :=
   memo p .pgScanCum ((getPrim w p .memoryStat).bind fun v => (Act.pure v.kv?).bind fun m =>
-    match kvLookup m pgscanKey with
-    | some x => Act.pure (.ok (.int x))
-    | none => Act.pure (.crash "runtime_error:missing pgscan"))
+    Act.pure ((pgscanOf m).map .int))
 
 /-- `average_usage` = `PROXY(getAverageUsage)` -/
 def getAverageUsage (w : World) (p : RPath) : Act α (Val α) :=
@@ -456,16 +476,12 @@ def getAverageUsage (w : World) (p : RPath) : Act α (Val α) :=
 /-- `io_cost_rate` = `PROXY(getIoCostRate)` -/
 def getIoCostRate (w : World) (p : RPath) : Act α (Val α) :=
   memo p .ioCostRate ((getIoCostCum cfg w p).bindNum fun c =>
-    Act.read fun st => match (archOf st p).io with
-      | none => .ok (.num zero)
-      | some a => .ok (.num (sub c a)))
+    Act.read fun st => .ok (.num (ioRateOf c (archOf st p).io)))
 
 /-- `pg_scan_rate` = `PROXY(getPgScanRate)` -/
 def getPgScanRate (w : World) (p : RPath) : Act α (Val α) :=
   memo p .pgScanRate ((getPgScanCum w p).bindInt fun c =>
-    Act.read fun st => match (archOf st p).pg with
-      | none => .unavailable
-      | some a => .ok (.int (c - a)))
+    Act.read fun st => (pgRateOf c (archOf st p).pg).map .int)
 
 /-- every cached accessor of `CgroupContext` -/
 def getField (w : World) (p : RPath) : Field → Act α (Val α)
@@ -490,9 +506,7 @@ deriving DecidableEq, Repr
 
 def statKey (w : World) (p : RPath) (key : String) : Act α (Val α) :=
   (getPrim w p .memoryStat).bind fun v => (Act.pure v.kv?).bind fun m =>
-    match kvLookup m (s key) with
-    | some x => Act.pure (.ok (.int x))
-    | none => Act.pure .unavailable
+    Act.pure ((statOf m key).map .int)
 
 def getAcc (w : World) (p : RPath) : Acc → Act α (Val α)
   | .field f => getField cfg w p f
@@ -511,27 +525,28 @@ def getAcc (w : World) (p : RPath) : Acc → Act α (Val α)
     if avg = 0 then Act.pure (.ok (.num zero))
     else Act.pure (.ok (.num (div (ofInt cur) (ofInt avg))))
 
-/-- `OomdContext::addChildrenToCacheAndGet`: children by name through the held directory; an
-existing cache entry wins (`emplace`).  Returns the names that have a context afterwards. -/
+/-- `addChildToCacheAndGet` for one name: `createChildCgroupCtx` opens the child through the held
+directory first; `cgroups_.emplace` then keeps an existing entry -/
+def addChildStep (w : World) (dir : Nat) (p : RPath) (acc : List Str × OSt α) (nm : Str) : List Str × OSt α :=
+  match w.openChild dir nm with
+  | none => acc
+  | some inc =>
+    match acc.2.ctxs (nm :: p) with
+    | some _ => (acc.1 ++ [nm], acc.2)
+    | none =>
+      (acc.1 ++ [nm], { acc.2 with
+        ctxs := fun q => if q = nm :: p then some { dir := inc, data := fun _ => none, arch := Arch.empty } else acc.2.ctxs q
+        keys := (nm :: p) :: acc.2.keys })
+
+/-- `OomdContext::addChildrenToCacheAndGet`: children by name through the held directory.
+Returns the names that have a context afterwards. -/
 def addChildren (w : World) (p : RPath) : Act α (List Str) :=
   (getPrim w p .children).bind fun cv => (Act.pure cv.strs?).bind fun names => fun st =>
     match st.ctxs p with
     | none => (.unavailable, st)
     | some c =>
-      let step := fun (acc : List Str × OSt α) (nm : Str) =>
-        let (got, st) := acc
-        -- `createChildCgroupCtx` opens the child first; `cgroups_.emplace` then keeps an existing entry
-        match w.openChild c.dir nm with
-        | none => (got, st)
-        | some inc =>
-          match st.ctxs (nm :: p) with
-          | some _ => (got ++ [nm], st)
-          | none =>
-            (got ++ [nm], { st with
-              ctxs := fun q => if q = nm :: p then some { dir := inc, data := fun _ => none, arch := Arch.empty } else st.ctxs q
-              keys := (nm :: p) :: st.keys })
-      let (got, st') := names.foldl step ([], st)
-      (.ok got, st')
+      let r := names.foldl (addChildStep w c.dir p) ([], st)
+      (.ok r.1, r.2)
 
 /-- `CgroupContext::refresh` + `Fs::isCgroupValid` -/
 def refreshCtx (w : World) (c : Ctx α) : Option (Ctx α) :=
@@ -549,7 +564,7 @@ def refresh (w : World) (st : OSt α) : OSt α :=
     keys := st.keys.filter fun q => ((st.ctxs q).bind (refreshCtx w)).isSome }
 
 /-- the `SystemContext` part of `Oomd::updateContext`: /proc/swaps, swappiness, /proc/vmstat and the
-swap-out moving averages (which restart from 0 after a tick without vmstat) -/
+swap-out moving averages (which restart from 0 after a tick without a `pswpout` sample) -/
 def nextSys (w : World) (prev : SysCtx α) : Res (SysCtx α) :=
   let swaps : Res (Nat × Nat) := match w.proc (s "swaps") with
     | none => .ok (0, 0)
@@ -569,7 +584,7 @@ def nextSys (w : World) (prev : SysCtx α) : Res (SysCtx α) :=
   | none => .ok base
   | some m =>
     let withVm := { base with vmstat := m }
-    if prev.vmstat.isEmpty then .ok withVm else
+    -- fix ed41fc7: both samples must have the key, otherwise the rates stay 0
     match kvLookup m (s "pswpout"), kvLookup prev.vmstat (s "pswpout") with
     | some cur, some old =>
       let bps : α := div (mul (ofInt (cur - old)) (ofInt 4096)) (ofInt cfg.interval)
@@ -577,7 +592,7 @@ def nextSys (w : World) (prev : SysCtx α) : Res (SysCtx α) :=
             swapoutBps := bps
             swapoutBps60 := ewmaStep cfg.factor60 prev.swapoutBps60 bps
             swapoutBps300 := ewmaStep cfg.factor300 prev.swapoutBps300 bps }
-    | _, _ => .crash "out_of_range:vmstat.at(pswpout)"
+    | _, _ => .ok withVm
 
 /-- `Oomd::updateContext` -/
 def updateContext (w : World) (st : OSt α) : Res (OSt α) :=
@@ -622,20 +637,20 @@ def refSumRaw (e : RefEnv α) (pp : RPath) : List Str → Res Int
 
 def refChildren (e : RefEnv α) (p : RPath) : Res (List Str) := (refPrim e p .children).bind Val.strs?
 
+def refOpen (e : RefEnv α) (p : RPath) : Res Unit :=
+  match e.w.openDir p with | none => .unavailable | some _ => .ok ()
+
 /-- P(root) = usage; P(top level) = R; P(c) = R(c) * min(1, P(parent) / Σ R(siblings)) -/
 def refMemProt (e : RefEnv α) : RPath → Res Int
   | [] => refInt e [] .currentUsage
   | [n] => refRaw e [n]
   | n :: m :: ps =>
-    (match e.w.openDir (m :: ps) with | none => Res.unavailable | some _ => Res.ok ()).bind fun _ =>
+    (refOpen e (m :: ps)).bind fun _ =>
     (refChildren e (m :: ps)).bind fun names =>
     (refSumRaw e (m :: ps) names).bind fun sum =>
     if sum = 0 then .ok 0 else
     (refRaw e (n :: m :: ps)).bind fun raw =>
     (refMemProt e (m :: ps)).bind fun pp => .ok (normProtection (α := α) raw pp sum)
-
-def refOpen (e : RefEnv α) (p : RPath) : Res Unit :=
-  match e.w.openDir p with | none => .unavailable | some _ => .ok ()
 
 def refEffSwapMax (e : RefEnv α) : RPath → Res Int
   | [] => .ok (wrap64 e.sys.swaptotal)
@@ -661,23 +676,16 @@ def refIoCostCum (e : RefEnv α) (p : RPath) : Res α :=
   ((refPrim e p .ioStat).bind Val.io?).bind fun stats => .ok (ioCost e.cfg stats)
 
 def refPgScanCum (e : RefEnv α) (p : RPath) : Res Int :=
-  ((refPrim e p .memoryStat).bind Val.kv?).bind fun m =>
-    match kvLookup m pgscanKey with
-    | some x => .ok x
-    | none => .crash "runtime_error:missing pgscan"
+  ((refPrim e p .memoryStat).bind Val.kv?).bind pgscanOf
 
 def refAverageUsage (e : RefEnv α) (p : RPath) : Res Int :=
   (refInt e p .currentUsage).bind fun cur => .ok (avgStep e.cfg.decay ((e.arch p).avg.getD 0) cur)
 
 def refIoCostRate (e : RefEnv α) (p : RPath) : Res α :=
-  (refIoCostCum e p).bind fun c => match (e.arch p).io with
-    | none => .ok zero
-    | some a => .ok (sub c a)
+  (refIoCostCum e p).bind fun c => .ok (ioRateOf c (e.arch p).io)
 
 def refPgScanRate (e : RefEnv α) (p : RPath) : Res Int :=
-  (refPgScanCum e p).bind fun c => match (e.arch p).pg with
-    | none => .unavailable
-    | some a => .ok (c - a)
+  (refPgScanCum e p).bind fun c => pgRateOf c (e.arch p).pg
 
 def refField (e : RefEnv α) (p : RPath) : Field → Res (Val α)
   | .effSwapMax => (refEffSwapMax e p).map .int
@@ -692,10 +700,7 @@ def refField (e : RefEnv α) (p : RPath) : Field → Res (Val α)
   | f => refPrim e p f
 
 def refStatKey (e : RefEnv α) (p : RPath) (key : String) : Res (Val α) :=
-  ((refPrim e p .memoryStat).bind Val.kv?).bind fun m =>
-    match kvLookup m (s key) with
-    | some x => .ok (.int x)
-    | none => .unavailable
+  (((refPrim e p .memoryStat).bind Val.kv?).bind fun m => statOf m key).map .int
 
 def refAcc (e : RefEnv α) (p : RPath) : Acc → Res (Val α)
   | .field f => refField e p f
